@@ -40,6 +40,8 @@ type C10Case struct {
 	Policy   int       `json:"policy,omitempty"`   // push policy installed on the shared stack: 0 none, 1 rejects the second value of every batch, 2 rejects everything pushed by goroutine 0
 	YieldRel bool      `json:"yieldrel,omitempty"` // also yield right after every unlock (code running after the critical section is interleaved too)
 	Free     bool      `json:"free,omitempty"`     // free-running (no scheduler)
+	NegIdx   bool      `json:"negidx,omitempty"`   // SetNegativeIndices / SetForwardIndices on the shared stack: Remove then takes relative
+	FwdIdx   bool      `json:"fwdidx,omitempty"`   // indices, whose meaning depends on the length at the moment the call takes effect
 }
 
 var errRejected = fmt.Errorf("rejected by the push policy")
@@ -59,6 +61,9 @@ func (r c10Result) String() string {
 
 // c10Policy is the push policy of the case being checked (set by runC10; the model consults it too).
 var c10Policy int
+
+// c10Idx: the index options of the case being checked (the model resolves Remove's index with them).
+var c10Idx struct{ neg, fwd bool }
 
 func c10Rejects(policy int, v any) bool {
 	str, _ := v.(string)
@@ -94,10 +99,17 @@ func c10ApplyModel(m *ListModel, g, i int, op C10Op) c10Result {
 	case "insert":
 		return c10Result{ok: m.Insert(c10Val(g, i, 0), op.A)}
 	case "remove":
-		if op.A < 0 || op.A >= m.Len() {
+		a := op.A
+		switch {
+		case a < 0 && c10Idx.neg && -a <= m.Len():
+			a = m.Len() + a // -k addresses the k-th element from the end, as the stack stands when the call takes effect
+		case a >= m.Len() && c10Idx.fwd && m.Len() > 0:
+			a = m.Len() - 1 // any oversize index addresses the last element
+		}
+		if a < 0 || a >= m.Len() {
 			return c10Result{}
 		}
-		return c10Result{v: m.Remove(op.A), ok: true}
+		return c10Result{v: m.Remove(a), ok: true}
 	case "replace":
 		return c10Result{ok: m.Replace(c10Val(g, i, 0), op.A)}
 	case "swap":
@@ -204,6 +216,12 @@ func c10Setup(c C10Case) (stackage.Stack, *ListModel, uintptr) {
 			return nil
 		})
 	}
+	if c.NegIdx {
+		s.SetNegativeIndices(true)
+	}
+	if c.FwdIdx {
+		s.SetForwardIndices(true)
+	}
 	s.SetMutex()
 	id, _ := stackage.VerifDump(s)["ptr"].(uintptr)
 	return s, m, id
@@ -228,13 +246,13 @@ func slotIDs(s stackage.Stack) string {
 }
 
 type c10Outcome struct {
-	results    [][]c10Result
-	final      []any
-	branching  []int
-	choices    []int
-	viol       *Violation
+	results        [][]c10Result
+	final          []any
+	branching      []int
+	choices        []int
+	viol           *Violation
 	switchedAtWant bool
-	history    []string
+	history        []string
 }
 
 // c10RunScheduled executes the programs under the cooperative scheduler with the given schedule prefix.
@@ -465,7 +483,11 @@ func lengthChanging(op string) bool {
 
 func runC10(c C10Case) (st Stats, err error) {
 	c10Policy = c.Policy
-	defer func() { c10Policy = 0 }()
+	c10Idx.neg, c10Idx.fwd = c.NegIdx, c.FwdIdx
+	defer func() { c10Policy = 0; c10Idx.neg, c10Idx.fwd = false, false }()
+	if c.NegIdx || c.FwdIdx {
+		st.Class("index-options")
+	}
 	if c.Policy != 0 {
 		st.Class("push-policy-installed")
 	}
@@ -636,13 +658,21 @@ func genC10(t *rapid.T, tier Tier) C10Case {
 	if rapid.IntRange(0, 3).Draw(t, "policy?") == 0 {
 		c.Policy = rapid.IntRange(1, 2).Draw(t, "policy")
 	}
+	if rapid.IntRange(0, 2).Draw(t, "idxopts?") == 0 {
+		c.NegIdx = rapid.Bool().Draw(t, "negidx")
+		c.FwdIdx = !c.NegIdx || rapid.Bool().Draw(t, "fwdidx")
+	}
 	G := rapid.IntRange(2, 3).Draw(t, "goroutines")
 	total := 0
 	for g := 0; g < G; g++ {
 		n := rapid.IntRange(1, 3).Draw(t, "nops")
 		var p []C10Op
 		for i := 0; i < n; i++ {
-			p = append(p, genC10Op(t, c.Init))
+			o := genC10Op(t, c.Init)
+			if o.Op == "remove" && (c.NegIdx || c.FwdIdx) && rapid.Bool().Draw(t, "relative") {
+				o.A = rapid.SampledFrom([]int{-1, -2, -c.Init, c.Init, c.Init + 1, c.Init + 5}).Draw(t, "rel")
+			}
+			p = append(p, o)
 		}
 		total += n
 		c.Progs = append(c.Progs, p)
@@ -713,6 +743,13 @@ func enumC10(tier Tier, yield func(C10Case)) {
 				if len(p1)+len(p2) == 2 || (tier.Thorough && (i+j)%3 == 0) {
 					yield(C10Case{Kind: stackKinds[cfgN%5], FIFO: fifo, Cap: cp, Init: init, Progs: [][]C10Op{p1, p2}, AllSched: true, YieldRel: true})
 				}
+				if p2[0].Op == "remove" && init >= 1 && (len(p1)+len(p2) == 2 || tier.Thorough) {
+					// the same with the index options on and the Remove given a relative index (last element / oversize)
+					for _, rel := range []int{-1, init + 3} {
+						q2 := append([]C10Op{{Op: "remove", A: rel}}, p2[1:]...)
+						yield(C10Case{Kind: stackKinds[cfgN%5], FIFO: fifo, Cap: cp, Init: init, Progs: [][]C10Op{p1, q2}, AllSched: true, NegIdx: true, FwdIdx: true, YieldRel: cfgN%2 == 0})
+					}
+				}
 			}
 		}
 	}
@@ -734,7 +771,7 @@ func enumC10(tier Tier, yield func(C10Case)) {
 func init() {
 	Register(Def[C10Case]{
 		ID: "C10",
-		Rule: "(A) deterministic, harness-owned schedules: 2-3 goroutines x 1-3 mutators (Push, Pop, Insert, Remove, Replace, Swap, Reverse, Reset) on a shared mutex-enabled stack of length 0..3, LIFO/FIFO, with/without capacity, with/without a (rejecting) push policy; a cooperative scheduler (verifPoint hook) parks each goroutine at every lock.want and at every operation boundary (and, in half of the generated cases and part of the enumerated ones, also right after every unlock, so that code running after the critical section is interleaved too) and the schedule picks who continues. " +
+		Rule: "(A) deterministic, harness-owned schedules: 2-3 goroutines x 1-3 mutators (Push, Pop, Insert, Remove, Replace, Swap, Reverse, Reset) on a shared mutex-enabled stack of length 0..3, LIFO/FIFO, with/without capacity, with/without a (rejecting) push policy, with/without the negative/forward index options (Remove then given relative indices); a cooperative scheduler (verifPoint hook) parks each goroutine at every lock.want and at every operation boundary (and, in half of the generated cases and part of the enumerated ones, also right after every unlock, so that code running after the critical section is interleaved too) and the schedule picks who continues. " +
 			"Enumeration: ALL schedules of 2 goroutines x <=2 ops over a 7-10 op alphabet on lengths 0..2 (quick: all single-op pairs and a deterministic seventh of the two-op pairs; thorough: all pairs plus 3x1). rapid: random programs and schedules. " +
 			"Oracle per execution: no panic; no self-deadlock, no parked-everybody deadlock, no lock leaked past an operation (from lock.held/lock.released ownership, deterministically); slot vector and configuration record (lock bookkeeping included) at lock.held equal those at the previous lock.released (shared state changes only under the lock); " +
 			"IsInit/kind/capacity/FIFO intact, Len<=capacity; every returned or remaining element was pushed or initial, at most once; brute-force linearizability: some order consistent with each goroutine's program reproduces every return value and the final content on the list model. " +
